@@ -58,16 +58,16 @@ OpsId == { OpS("set_language", l) : l \in Langs } \cup { OpS("set_script", s) : 
 (* "grown" containers: valid arguments only, but enough of them that every   *)
 (* container reaches 5..7 members (thresholds, binary-search positions in    *)
 (* longer vectors); the reachable graph is small because each part is alone  *)
-GAttrs == { B("aaa"), B("bbbbbbbb"), B("c3c"), B("ddd"), B("eee1"), B("fff"), B("zzz") }
+GAttrs == { B("aaa"), B("bbbbbbbb"), B("c3c"), B("ddd"), B("eee1"), B("fff"), B("ggg"), B("h1h1h"), B("iii"), B("zzz") }
 OpsGU == { OpS("set_attribute", a) : a \in GAttrs } \cup { OpS("remove_attribute", a) : a \in GAttrs }
          \cup { OpS("has_attribute", a) : a \in GAttrs }
-GKeys == { B("ca"), B("cb"), B("1a"), B("hc"), B("nu"), B("zz") }
-OpsGK == { OpKV("set_keyword", k, v) : k \in GKeys, v \in { <<>>, <<B("x1x")>> } }
+GKeys == { B("ca"), B("cb"), B("1a"), B("hc"), B("nu"), B("zz"), B("ab"), B("kf"), B("9z"), B("mm") }
+OpsGK == { OpKV("set_keyword", k, v) : k \in GKeys, v \in { <<B("x1x")>> } }
          \cup { OpK("remove_keyword", k) : k \in GKeys } \cup { OpK("keyword", k) : k \in GKeys }
-GTKeys == { B("a0"), B("b1"), B("h0"), B("k0"), B("z9") }
-OpsGT == { OpKV("set_tfield", k, v) : k \in GTKeys, v \in { <<>>, <<B("hybrid")>> } }
+GTKeys == { B("a0"), B("b1"), B("h0"), B("k0"), B("z9"), B("c2"), B("d3"), B("m0"), B("s5"), B("t7") }
+OpsGT == { OpKV("set_tfield", k, v) : k \in GTKeys, v \in { <<B("hybrid")>> } }
          \cup { OpK("remove_tfield", k) : k \in GTKeys } \cup { OpK("tfield", k) : k \in GTKeys }
-GTags == { B("a"), B("b"), B("c"), B("d"), B("e5"), B("f"), B("g") }
+GTags == { B("a"), B("b"), B("c"), B("d"), B("e5"), B("f"), B("g"), B("h"), B("i9"), B("zzzzzzzz") }
 OpsGX == { OpS("add_tag", x) : x \in GTags } \cup { OpS("remove_tag", x) : x \in GTags } \cup { OpS("has_tag", x) : x \in GTags }
 
 (* the product machine: every operation, two or three arguments each        *)
@@ -114,7 +114,9 @@ Ops == IF Mode = "hist"
               [] Part = "GU" -> OpsGU [] Part = "GK" -> OpsGK [] Part = "GT" -> OpsGT [] Part = "GX" -> OpsGX
 
 (* bound the private-tag bag (it is the only unbounded component)           *)
-Bounded(v) == Len(v.priv) <= (IF Part = "GX" THEN 7 ELSE 3)
+(* GX: ten tags, each at most once (the small X part explores repeated tags)   *)
+Bounded(v) == IF Part = "GX" THEN \A p, q \in 1..Len(v.priv) : p # q => v.priv[p] # v.priv[q]
+              ELSE Len(v.priv) <= 3
 
 (* start values: default(), or a parsed locale that already carries every   *)
 (* kind of extension                                                        *)
